@@ -762,26 +762,22 @@ def g6(ctx, F, D):
 def g9(ctx, F, D):
     """Board edges and the collecting closure: Position::add yields (row+dr, col+dc) iff both stay in 0..8; the `push` closure of
     Game::get_moves appends every move it is given; the buffer is cleared first; no move without the mover's king."""
+    from .common import position_constructor_cases
+    from . import inline
     fn = F.fn("chess::position::Position::add")
-    env = hir.Env(fn["hir"], F)
-    sym = hir.Sym(env, F, depth=30)
-    body = fn["hir"]["body"]
-    ctors = [n for n, _ in hir.walk(body) if n.get("k") == "Call" and n.get("ty") == "chess::position::Position"]
-    ok = len(ctors) == 1
-    found = None
-    if ok:
-        c = ctors[0]
-        a0, a1 = hir.canon(sym(c["args"][0])), hir.canon(sym(c["args"][1]))
-        want0 = hir.canon(("bin", "+", ("field", ("var", "self"), "0"), ("field", ("var", "delta"), "0")))
-        want1 = hir.canon(("bin", "+", ("field", ("var", "self"), "1"), ("field", ("var", "delta"), "1")))
-        g = [(fmtn(x[1], 200), x[2]) for x in (hir.guards_of(c, body, sym) or []) if x[0] == "if"]
-        need = [("<Idx>::contains(ops::Range{end: 8, start: 0}, %s)" % fmtn(sym(c["args"][i]), 80), True) for i in (0, 1)]
-        ok = a0 == want0 and a1 == want1 and all(n in g for n in need) and len(g) == 2
-        found = {"square": (fmtn(a0, 60), fmtn(a1, 60)), "guards": g}
-    nones = [n for n, _ in hir.walk(body) if n.get("k") == "Path" and (n["to"].get("path") or "").endswith("::None")]
-    ctx.check("C01.G9", "board-edges:Position::add", ok and len(nones) == 1, fn=fn["path"], file=fn["file"], line=fn["span"][0],
+    bad, n_ = [], 0
+    try:
+        for (r, c, dr, dc), v in position_constructor_cases(F, "add"):
+            n_ += 1
+            want = ("ctor", "std::prelude::v1::Some", (("pos", r + dr, c + dc),)) if 0 <= r + dr < 8 and 0 <= c + dc < 8 else ("variant", "std::prelude::v1::None")
+            if v != want:
+                bad.append(((r, c), (dr, dc), fmtn(v, 60)))
+    except (hir.Unsupported, inline.Cannot) as e:
+        bad.append(("not summarisable", str(e)))
+    ctx.check("C01.G9", "board-edges:Position::add", not bad and n_ > 0, fn=fn["path"], file=fn["file"], line=fn["span"][0],
               what="stepping from a square must give (row+drow, col+dcol) exactly when both stay on the board, None otherwise "
-                   "(a wrong edge makes pieces wrap around or stop short)", expected="Some(row+d0, col+d1) iff both in 0..8", found=found)
+                   "(a wrong edge makes pieces wrap around or stop short)", expected="Some(row+d0, col+d1) iff both in 0..8",
+              found=bad[:4] or "%d (square, step) cases" % n_)
     gm = F.fn(FILTER)
     genv = hir.Env(gm["hir"], F)
     gsym = hir.Sym(genv, F)
